@@ -296,6 +296,12 @@ def rand_value(rng, tag):
     return '/%s/%s' % (tag.lower(), ''.join(rng.choice('abcdefghijklmnopqrstuvwxyz0123456789_') for _ in range(rng.randrange(3, 12))))
 
 
+def odd_value(rng, tag):
+    """a value that must come back byte for byte: blanks around it, a trailing newline (as left by `export X="$(cat f)"`)"""
+    v = rand_value(rng, tag)
+    return rng.choice([' ' + v, v + ' ', '  ' + v + '  ', v + '\n', '\t' + v])
+
+
 def window_plan(ctx):
     rng = ctx.rng
     plans = []
@@ -305,10 +311,38 @@ def window_plan(ctx):
                 init = {'PHOTO_CALIB': rand_value(rng, 'calib') if calib is True else (None if calib is False else ''),
                         'PHOTO_RESOLVE': rand_value(rng, 'resolve') if resolve else None}
                 plans.append(({'rescore': rescore}, init))
+    # "exactly the value it had on entry": values with surrounding white space, and a blank one
+    for resolve in (True, False):
+        plans.append(({'rescore': False}, {'PHOTO_CALIB': odd_value(rng, 'calib'),
+                                           'PHOTO_RESOLVE': (odd_value(rng, 'resolve') if resolve else None)}))
+    plans.append(({'rescore': True}, {'PHOTO_CALIB': ' ', 'PHOTO_RESOLVE': rand_value(rng, 'resolve')}))
     return plans
 
 
-def template_plan(ctx):
+def optional_keywords(p):
+    """lower-case string constants the translated source uses as keys (subscript, `in`, .get) and that the harness'
+    parameter file does not set: optional keywords of the parameter file.  On the unchanged tree there are none; a change
+    that makes the entry point read another keyword gets a parameter file that carries it."""
+    import ast
+    from harness.props.c20_real import PAR
+    known = set(re.findall(r'^(\w+) ', PAR, re.M)) | set(re.findall(r'(\w+);', PAR)) | {'eigenobj'}
+    found = []
+    for node in nodes_of(p):
+        for n in ast.walk(node):
+            cands = []
+            if isinstance(n, ast.Subscript) and isinstance(n.slice, ast.Constant):
+                cands.append(n.slice.value)
+            if isinstance(n, ast.Compare) and isinstance(n.left, ast.Constant) and any(isinstance(o, (ast.In, ast.NotIn)) for o in n.ops):
+                cands.append(n.left.value)
+            if isinstance(n, ast.Call) and isinstance(n.func, ast.Attribute) and n.func.attr in ('get', 'pop') and n.args and isinstance(n.args[0], ast.Constant):
+                cands.append(n.args[0].value)
+            for c in cands:
+                if isinstance(c, str) and re.fullmatch(r'[a-z][a-z0-9_]*', c) and c not in known and c not in found:
+                    found.append(c)
+    return found
+
+
+def template_plan(ctx, p=None):
     rng = ctx.rng
     variants = [dict(object='gal', method='pca'), dict(object='gal', method='hmf', flux=True),
                 dict(object='qso', method='pca', dump=True), dict(object='star', method='pca', verbose=True),
@@ -326,6 +360,18 @@ def template_plan(ctx):
         plans.append((v, {'RUN2D': '', 'RUN1D': rand_value(rng, 'run1d')}))
         plans.append((v, {'RUN2D': rand_value(rng, 'run2d'), 'RUN1D': ''}))
         plans.append((v, {'RUN2D': '', 'RUN1D': None}))
+    plans.append((variants[0], {'RUN2D': odd_value(rng, 'run2d'), 'RUN1D': odd_value(rng, 'run1d')}))
+    # the parameter file names the versions that are already set (one of them, both)
+    plans.append((dict(variants[0], run2d='v5_7_0', run1d='v5_7_2'), {'RUN2D': 'v5_7_0', 'RUN1D': rand_value(rng, 'run1d')}))
+    plans.append((dict(variants[0], run2d='v5_7_0', run1d='v5_7_2'), {'RUN2D': 'v5_7_0', 'RUN1D': None}))
+    plans.append((dict(variants[0], run2d='v5_7_0', run1d='v5_7_2'), {'RUN2D': rand_value(rng, 'run2d'), 'RUN1D': 'v5_7_2'}))
+    opt = optional_keywords(p) if p is not None else []
+    ctx.count('template:optional-keywords-in-source', len(opt))
+    if opt:
+        # every other variable the translated source may write is watched by the snapshot oracle anyway
+        for r2, r1 in ((True, True), (False, False), (True, False)):
+            plans.append((dict(variants[0], extra_keys=opt), {'RUN2D': rand_value(rng, 'run2d') if r2 else None,
+                                                                'RUN1D': rand_value(rng, 'run1d') if r1 else None}))
     return plans
 
 
@@ -485,7 +531,7 @@ def injections(ctx, progs):
     jobs = []
     for pi, p in enumerate(progs):
         hc = handler_classes(p)
-        plans = window_plan(ctx) if p['func'] == 'window_score' else template_plan(ctx)
+        plans = window_plan(ctx) if p['func'] == 'window_score' else template_plan(ctx, p)
         for n, (variant, init) in enumerate(plans):
             nset = sum(bool(v) for v in init.values())
             if p['func'] == 'window_score':
